@@ -444,6 +444,9 @@ def global_row_axioms(formulas):
                 rd = bs.dict_has(c2, j) if kind == "dict_has" else bs.dict_get(c2, j)
                 ax.append(rd == rd)
                 work.append((kind, c2, j))
+        if kind == "dict_has":
+            # a dict that has a key is not empty  [SPEC-BUILTIN]
+            ax.append(z3.Implies(bs.dict_has(c, j), bs.dict_len(c) > 0))
         if not z3.is_app(c):
             continue
         nm = c.decl().name()
@@ -460,6 +463,15 @@ def global_row_axioms(formulas):
                 ax.append(bs.dict_has(c, j) == z3.And(j != k, bs.dict_has(c0, j)))
             else:
                 ax.append(z3.Implies(j != k, bs.dict_get(c, j) == bs.dict_get(c0, j)))
+            work.append((kind, c0, j))
+        elif nm == "dict_popitem_rest":
+            c0 = c.children()[0]
+            k = smt.F("unpack2_0", Val, Val)(bs.dict_popitem_pair(c0))
+            ne = bs.dict_len(c0) > 0
+            if kind == "dict_has":
+                ax.append(z3.Implies(ne, bs.dict_has(c, j) == z3.And(j != k, bs.dict_has(c0, j))))
+            else:
+                ax.append(z3.Implies(z3.And(ne, j != k), bs.dict_get(c, j) == bs.dict_get(c0, j)))
             work.append((kind, c0, j))
         elif nm == "dict_empty":
             if kind == "dict_has":
@@ -496,9 +508,19 @@ def _axioms_of(f):
                 need_ground = True
                 ax.append(smt.tyof(e) == T("dict" if nm == "dict_empty" else "list"))
                 ax.append(z3.And(z3.Not(smt.is_VNone(e)), z3.Not(smt.is_VAbsent(e)), z3.Not(smt.is_VRef(e))))
+                if nm == "dict_empty":
+                    ax.append(bs.dict_len(e) == 0)
             continue
         nm = e.decl().name()
         args = e.children()
+        if nm in ("dict_popitem_pair", "dict_popitem_rest"):
+            # popitem() of a non-empty dict removes ONE of its items and returns it  [SPEC-BUILTIN]
+            c = args[0]
+            pair = bs.dict_popitem_pair(c)
+            k = smt.F("unpack2_0", Val, Val)(pair)
+            v = smt.F("unpack2_1", Val, Val)(pair)
+            ax.append(z3.Implies(bs.dict_len(c) > 0, z3.And(bs.dict_has(c, k), bs.dict_get(c, k) == v,
+                                                           bs.dict_popitem_rest(c) == bs.dict_del(c, k))))
         if nm in ops or nm in PREDS:
             if all(a.sort() == Val for a in args):
                 fc = smt.F(nm + "#c", *([Val] * len(args)), e.sort())
@@ -522,6 +544,8 @@ def _axioms_of(f):
                                  z3.Not(smt.is_VFloat(e))))
         elif nm == "truthy":
             t = args[0]
+            need_ground = True
+            ax.append(z3.Implies(smt.tyof(t) == T("dict"), e == (bs.dict_len(t) > 0)))
             ax.append(z3.Implies(smt.is_VBool(t), e == Val.b(t)))
             ax.append(z3.Implies(smt.is_VNone(t), z3.Not(e)))
             ax.append(z3.Implies(smt.is_VInt(t), e == (Val.i(t) != 0)))
